@@ -1,5 +1,665 @@
-(* Proofs/TurnProofs.v — under construction *)
+(* Proofs/TurnProofs.v — C09: one host call executes at most one statement.
+
+   Observables of "a statement was executed" are its output records: a PRINT
+   statement pushes exactly one Print record, INPUT at most one Reenter /
+   ExtraIgnored record, STOP one Break record, and every evaluate_statement
+   entry pushes one Trace record naming the current line (when tracing is on).
+   Expressions (including user-function bodies, which are expressions) push
+   nothing but Warning records.
+
+     RQ   expression-level: only Warning records are appended
+     R1   one simple statement: at most one shown record, no Trace record
+     SQ L one statement entered on line L (an IF together with the single
+          statement it selects): at most one shown record, and every Trace
+          record names L
+   Main results: one_statement_per_turn, continue_one_statement. *)
 From Coq Require Import List NArith ZArith Bool Lia.
 From Abasic Require Import Model.Bytes Model.Num Model.Token Model.Data Model.Lexer Gen.Tables
-     Model.State Model.Eval Model.Interp Proofs.Monad Proofs.Frames Proofs.StoreProofs.
+     Model.State Model.Eval Model.Interp Proofs.Monad Proofs.Frames Proofs.StoreProofs Proofs.Safety.
 Import ListNotations.
+Local Open Scope nat_scope.
+
+Definition is_warning (o : output) : Prop := match o with OWarning _ _ => True | _ => False end.
+
+(* records that show a statement was executed *)
+Definition shows (o : output) : bool :=
+  match o with OPrint _ | OReenter | OExtraIgnored | OBreak _ => true | _ => false end.
+
+Definition trace_ok (L : option N) (o : output) : Prop :=
+  match o with OTrace n => L = Some n | _ => True end.
+
+Definition RQ (s : interp) (r : res unit) (s' : interp) : Prop :=
+  exists new, outputs s' = outputs s ++ new /\ Forall is_warning new.
+
+Lemma RQ_refl s r : RQ s r s.
+Proof. exists []. rewrite app_nil_r. split; [reflexivity|constructor]. Qed.
+
+Lemma RQ_any s r r' s' : RQ s r s' -> RQ s r' s'.
+Proof. intros H; exact H. Qed.
+
+Lemma RQ_ocat : ocat RQ.
+Proof.
+  split; try (intros; apply RQ_refl).
+  intros a b c r (n1 & H1 & F1) (n2 & H2 & F2). exists (n1 ++ n2).
+  rewrite H2, H1, app_assoc. split; [reflexivity|apply Forall_app; split; assumption].
+Qed.
+
+Lemma rq_modify_frame f : (forall s, outputs (f s) = outputs s) -> orel RQ (modify f).
+Proof.
+  intros H. apply orel_modify. intros s. exists []. rewrite app_nil_r, H. split; [reflexivity|constructor].
+Qed.
+
+Lemma rq_same {A} (m : M A) : (forall s, snd (m s) = s) -> orel RQ m.
+Proof. intros H s. rewrite H. apply RQ_refl. Qed.
+
+Ltac rq_frame := apply rq_modify_frame; intros; reflexivity.
+
+Lemma rq_tokens_for_line l : orel RQ (tokens_for_line l).
+Proof.
+  apply rq_same. intros s. unfold tokens_for_line.
+  destruct l as [n|]; [destruct (toks_get n (st_toks s))|]; reflexivity.
+Qed.
+
+Lemma rq_lift_res {A} (r : res A) : orel RQ (lift_res r).
+Proof. apply rq_same. reflexivity. Qed.
+
+Lemma rq_panic {A} p : orel RQ (@panic A p).
+Proof. apply rq_same. reflexivity. Qed.
+
+Create HintDb rqdb discriminated.
+#[local] Hint Resolve rq_tokens_for_line rq_lift_res rq_panic : rqdb.
+
+Ltac rq_leaf := first [ solve [ auto 3 with rqdb nocore ] | solve [ rq_frame ] ].
+Ltac rq_walk := orel_walk RQ_ocat rq_leaf.
+
+(* ---- token cursor ---- *)
+Lemma rq_cur_tokens : orel RQ cur_tokens. Proof. unfold cur_tokens; rq_walk. Qed.
+#[local] Hint Resolve rq_cur_tokens : rqdb.
+Lemma rq_peek : orel RQ peek_next_token. Proof. unfold peek_next_token; rq_walk. Qed.
+#[local] Hint Resolve rq_peek : rqdb.
+Lemma rq_has_next : orel RQ has_next_token. Proof. unfold has_next_token; rq_walk. Qed.
+Lemma rq_advance : orel RQ advance. Proof. unfold advance; rq_walk. Qed.
+#[local] Hint Resolve rq_has_next rq_advance : rqdb.
+Lemma rq_next_token : orel RQ next_token. Proof. unfold next_token; rq_walk. Qed.
+#[local] Hint Resolve rq_next_token : rqdb.
+Lemma rq_next_unwrapped : orel RQ next_unwrapped_token. Proof. unfold next_unwrapped_token; rq_walk. Qed.
+#[local] Hint Resolve rq_next_unwrapped : rqdb.
+Lemma rq_expect t : orel RQ (expect_next_token t). Proof. unfold expect_next_token; rq_walk. Qed.
+Lemma rq_accept t : orel RQ (accept_next_token t). Proof. unfold accept_next_token; rq_walk. Qed.
+Lemma rq_peek_is t : orel RQ (peek_is t). Proof. unfold peek_is; rq_walk. Qed.
+Lemma rq_try {B} (g : token -> option B) : orel RQ (try_next_token g). Proof. unfold try_next_token; rq_walk. Qed.
+#[local] Hint Resolve rq_expect rq_accept rq_peek_is rq_try : rqdb.
+Lemma rq_discard : orel RQ discard_remaining_tokens. Proof. unfold discard_remaining_tokens; rq_walk. Qed.
+Lemma rq_rewind_loop i e : orel RQ (rewind_loop i e).
+Proof. induction i as [|i IH]; cbn [rewind_loop]; rq_walk. Qed.
+#[local] Hint Resolve rq_discard rq_rewind_loop : rqdb.
+Lemma rq_rewind e : orel RQ (rewind_before_token e). Proof. unfold rewind_before_token; rq_walk. Qed.
+Lemma rq_get_line_number : orel RQ get_line_number. Proof. unfold get_line_number; rq_walk. Qed.
+Lemma rq_is_else : orel RQ is_else_of_then_clause. Proof. unfold is_else_of_then_clause; rq_walk. Qed.
+#[local] Hint Resolve rq_rewind rq_get_line_number rq_is_else : rqdb.
+
+(* ---- values, arrays, data, output ---- *)
+Lemma rq_variables_set n v : orel RQ (variables_set n v). Proof. unfold variables_set; rq_walk. Qed.
+Lemma rq_variables_get n : orel RQ (variables_get n). Proof. unfold variables_get; rq_walk. Qed.
+Lemma rq_find_var n : orel RQ (find_variable_value_in_stack n).
+Proof. unfold find_variable_value_in_stack; rq_walk. Qed.
+Lemma rq_reset_data : orel RQ reset_data_cursor. Proof. unfold reset_data_cursor; rq_walk. Qed.
+#[local] Hint Resolve rq_variables_set rq_variables_get rq_find_var rq_reset_data : rqdb.
+Lemma rq_push_warning m l : orel RQ (push_output (OWarning m l)).
+Proof.
+  unfold push_output. apply orel_modify. intros s. exists [OWarning m l]. split; [reflexivity|].
+  constructor; [exact I|constructor].
+Qed.
+#[local] Hint Resolve rq_push_warning : rqdb.
+Lemma rq_warn m : orel RQ (warn m). Proof. unfold warn; rq_walk. Qed.
+#[local] Hint Resolve rq_warn : rqdb.
+Lemma rq_maybe_warn n : orel RQ (maybe_warn_undeclared_array n).
+Proof. unfold maybe_warn_undeclared_array; rq_walk. Qed.
+Lemma rq_arrays_create n i : orel RQ (arrays_create n i). Proof. unfold arrays_create; rq_walk. Qed.
+#[local] Hint Resolve rq_maybe_warn rq_arrays_create : rqdb.
+Lemma rq_maybe_default n d : orel RQ (maybe_create_default_array n d).
+Proof. unfold maybe_create_default_array; rq_walk. Qed.
+#[local] Hint Resolve rq_maybe_default : rqdb.
+Lemma rq_arrays_get n i : orel RQ (arrays_get n i). Proof. unfold arrays_get; rq_walk. Qed.
+Lemma rq_arrays_set n i v : orel RQ (arrays_set n i v). Proof. unfold arrays_set; rq_walk. Qed.
+Lemma rq_rng_rnd x : orel RQ (rng_rnd x). Proof. unfold rng_rnd; rq_walk. Qed.
+#[local] Hint Resolve rq_arrays_get rq_arrays_set rq_rng_rnd : rqdb.
+
+Lemma rq_next_data : orel RQ next_data_element.
+Proof.
+  intros s. unfold next_data_element.
+  assert (K : forall d, RQ s (Ok tt) (set_data_it d s)) by (intros d; exists []; rewrite app_nil_r; split; [reflexivity|constructor]).
+  assert (K0 : forall r, RQ s r s) by (intros r; exists []; rewrite app_nil_r; split; [reflexivity|constructor]).
+  destruct (data_it s) as [d|].
+  - destruct (data_next _ d); apply K.
+  - destruct (data_chunks (st_keys s) (st_toks s)); try apply K0. destruct (data_next _ _); apply K.
+Qed.
+#[local] Hint Resolve rq_next_data : rqdb.
+
+Lemma rq_eval_unary o v : orel RQ (eval_unary o v). Proof. unfold eval_unary; rq_walk. Qed.
+Lemma rq_eval_addsub o a b : orel RQ (eval_addsub o a b). Proof. unfold eval_addsub; rq_walk. Qed.
+Lemma rq_eval_muldiv o a b : orel RQ (eval_muldiv o a b). Proof. unfold eval_muldiv; rq_walk. Qed.
+Lemma rq_eval_eq o a b : orel RQ (eval_eq o a b). Proof. unfold eval_eq; rq_walk. Qed.
+Lemma rq_eval_and a b : orel RQ (eval_and a b). Proof. unfold eval_and; rq_walk. Qed.
+Lemma rq_eval_or a b : orel RQ (eval_or a b). Proof. unfold eval_or; rq_walk. Qed.
+Lemma rq_eval_pow a b : orel RQ (eval_pow a b). Proof. unfold eval_pow; rq_walk. Qed.
+Lemma rq_expect_number v : orel RQ (expect_number v). Proof. unfold expect_number; rq_walk. Qed.
+#[local] Hint Resolve rq_eval_unary rq_eval_addsub rq_eval_muldiv rq_eval_eq rq_eval_and rq_eval_or
+  rq_eval_pow rq_expect_number : rqdb.
+
+(* ---- control primitives: none of them touches the output ---- *)
+Lemma rq_remove_loop sym : orel RQ (remove_loop_with_name sym). Proof. unfold remove_loop_with_name; rq_walk. Qed.
+#[local] Hint Resolve rq_remove_loop : rqdb.
+Lemma rq_start_loop sym a b c : orel RQ (start_loop sym a b c). Proof. unfold start_loop; rq_walk. Qed.
+Lemma rq_end_loop sym : orel RQ (end_loop sym). Proof. unfold end_loop; rq_walk. Qed.
+Lemma rq_goto n : orel RQ (goto_line_number n). Proof. unfold goto_line_number; rq_walk. Qed.
+#[local] Hint Resolve rq_start_loop rq_end_loop rq_goto : rqdb.
+Lemma rq_gosub n : orel RQ (gosub_line_number n). Proof. unfold gosub_line_number; rq_walk. Qed.
+Lemma rq_return : orel RQ return_to_last_gosub. Proof. unfold return_to_last_gosub; rq_walk. Qed.
+Lemma rq_define_function name args : orel RQ (define_function name args). Proof. unfold define_function; rq_walk. Qed.
+Lemma rq_pop : orel RQ pop_function_call. Proof. unfold pop_function_call; rq_walk. Qed.
+Lemma rq_push name b : orel RQ (push_function_call name b). Proof. unfold push_function_call; rq_walk. Qed.
+Lemma rq_next_line : orel RQ next_line. Proof. unfold next_line; rq_walk. Qed.
+Lemma rq_set_imm ts : orel RQ (set_and_goto_immediate_line ts).
+Proof. unfold set_and_goto_immediate_line. apply rq_modify_frame. intros s. destruct (breakpoint s); reflexivity. Qed.
+#[local] Hint Resolve rq_gosub rq_return rq_define_function rq_pop rq_push rq_next_line rq_set_imm : rqdb.
+Lemma rq_program_break : orel RQ program_break_at_current_location.
+Proof. unfold program_break_at_current_location; rq_walk. Qed.
+Lemma rq_program_end : orel RQ program_end. Proof. unfold program_end; rq_walk. Qed.
+#[local] Hint Resolve rq_program_break rq_program_end : rqdb.
+
+(* ------------------------------------------------------------------ *)
+(* expressions *)
+
+Section ExprQ.
+  Variable fuel : nat.
+  Variable rec : M value.
+  Hypothesis Hrec : orel RQ rec.
+
+  Lemma rq_bind_arguments args : forall i n b, orel RQ (bind_arguments rec args i n b).
+  Proof.
+    induction args as [|a args IH]; intros i n b; cbn [bind_arguments];
+      orel_walk RQ_ocat ltac:(first [ apply Hrec | apply IH | rq_leaf ]).
+  Qed.
+
+  Lemma rq_call_body : orel RQ (call_body rec).
+  Proof.
+    intros s. unfold call_body. pose proof (Hrec s) as H1.
+    destruct (rec s) as [[v|e l|p| |] s1]; cbn [fst snd forget] in *; try exact H1.
+    - pose proof (rq_pop s1) as H2.
+      destruct (pop_function_call s1) as [[u|e l|p| |] s2]; cbn [fst snd forget] in *;
+        eapply (oc_trans _ RQ_ocat); try exact H1; (eapply RQ_any; exact H2).
+    - pose proof (rq_pop s1) as H2.
+      destruct (pop_function_call s1) as [[u|e2 l2|p| |] s2]; cbn [fst snd forget] in *;
+        eapply (oc_trans _ RQ_ocat); try (eapply RQ_any; exact H1); (eapply RQ_any; exact H2).
+  Qed.
+
+  Lemma rq_user_function_call name : orel RQ (user_function_call rec name).
+  Proof.
+    unfold user_function_call.
+    orel_walk RQ_ocat ltac:(first [ apply rq_bind_arguments | apply rq_call_body | rq_leaf ]).
+  Qed.
+
+  Lemma rq_array_index : orel RQ (evaluate_array_index fuel rec).
+  Proof. unfold evaluate_array_index; orel_walk RQ_ocat ltac:(first [ apply Hrec | rq_leaf ]). Qed.
+
+  Lemma rq_unary_arg : orel RQ (unary_number_function_arg rec).
+  Proof. unfold unary_number_function_arg; orel_walk RQ_ocat ltac:(first [ apply Hrec | rq_leaf ]). Qed.
+
+  Lemma rq_function_call name : orel RQ (function_call rec name).
+  Proof.
+    unfold function_call.
+    orel_walk RQ_ocat ltac:(first [ apply rq_unary_arg | apply rq_user_function_call | rq_leaf ]).
+  Qed.
+
+  Lemma rq_unary : orel RQ (unary_operator fuel rec).
+  Proof.
+    unfold unary_operator, parenthesized_expression, expression_term.
+    orel_walk RQ_ocat ltac:(first [ apply Hrec | apply rq_function_call | apply rq_array_index | rq_leaf ]).
+  Qed.
+
+  Lemma rq_accept_as {O} t (o : O) : orel RQ (accept_as t o).
+  Proof. unfold accept_as; rq_walk. Qed.
+
+  Lemma rq_tier {O} (get_op : M (option O)) operand apply :
+    orel RQ get_op -> orel RQ operand -> (forall o a b, orel RQ (apply o a b)) ->
+    orel RQ (tier fuel get_op operand apply).
+  Proof.
+    intros H1 H2 H3. unfold tier.
+    orel_walk RQ_ocat ltac:(first [ apply H1 | apply H2 | apply H3 | rq_leaf ]).
+  Qed.
+
+  Lemma rq_logical_or : orel RQ (logical_or_expression fuel rec).
+  Proof.
+    unfold logical_or_expression, logical_and_expression, equality_expression,
+      plus_or_minus_expression, multiply_or_divide_expression, exponent_expression.
+    repeat (apply rq_tier; [ first [apply rq_accept_as | apply rq_try] | | intros; rq_leaf ]).
+    apply rq_unary.
+  Qed.
+End ExprQ.
+
+Lemma rq_evaluate_expression fuel : forall n, orel RQ (evaluate_expression fuel n).
+Proof.
+  induction fuel as [|k IH]; intros n; cbn [evaluate_expression].
+  - apply (orel_out_of_fuel _ RQ_ocat).
+  - destruct (Nat.eqb n max_nesting); [apply (orel_fail _ RQ_ocat)|].
+    apply rq_logical_or; apply IH.
+Qed.
+#[local] Hint Resolve rq_evaluate_expression : rqdb.
+(* ------------------------------------------------------------------ *)
+(* one simple statement *)
+
+Definition R1 (s : interp) (r : res unit) (s' : interp) : Prop :=
+  exists new, outputs s' = outputs s ++ new /\ length (filter shows new) <= 1
+              /\ Forall (fun o => match o with OTrace _ => False | _ => True end) new.
+
+Lemma filter_shows_warnings w : Forall is_warning w -> filter shows w = [].
+Proof. induction 1 as [|o w Ho _ IH]; [reflexivity|]. destruct o; try contradiction. exact IH. Qed.
+
+Lemma warnings_not_trace w : Forall is_warning w ->
+  Forall (fun o => match o with OTrace _ => False | _ => True end) w.
+Proof. apply Forall_impl. intros o; destruct o; auto. Qed.
+
+Lemma warnings_trace_ok L w : Forall is_warning w -> Forall (trace_ok L) w.
+Proof. apply Forall_impl. intros o; destruct o; cbn; auto; contradiction. Qed.
+
+Lemma R1_of_RQ s r r' s' : RQ s r s' -> R1 s r' s'.
+Proof.
+  intros (w & Hw & Fw). exists w.
+  rewrite (filter_shows_warnings w Fw). split; [exact Hw|]. split; [cbn; lia|apply warnings_not_trace, Fw].
+Qed.
+
+Lemma r1_of_rq {A} (m : M A) : orel RQ m -> orel R1 m.
+Proof. intros H s. eapply R1_of_RQ, H. Qed.
+
+Lemma r1_bind_l {A B} (m : M A) (f : A -> M B) :
+  orel RQ m -> (forall a, orel R1 (f a)) -> orel R1 (bind m f).
+Proof.
+  intros Hm Hf s. rewrite Safety.bind_run. pose proof (Hm s) as H1.
+  destruct (m s) as [[a|e l|p| |] s1]; cbn [fst snd forget] in *;
+    try (eapply R1_of_RQ; exact H1).
+  destruct H1 as (w & Hw & Fw). destruct (Hf a s1) as (n & Hn & Cn & Tn).
+  exists (w ++ n). rewrite Hn, Hw, app_assoc. split; [reflexivity|].
+  rewrite filter_app, (filter_shows_warnings w Fw). split; [exact Cn|].
+  apply Forall_app; split; [apply warnings_not_trace, Fw|exact Tn].
+Qed.
+
+Lemma r1_bind_r {A B} (m : M A) (f : A -> M B) :
+  orel R1 m -> (forall a, orel RQ (f a)) -> orel R1 (bind m f).
+Proof.
+  intros Hm Hf s. rewrite Safety.bind_run. pose proof (Hm s) as H1.
+  destruct (m s) as [[a|e l|p| |] s1]; cbn [fst snd forget] in *; try exact H1.
+  destruct H1 as (n & Hn & Cn & Tn). destruct (Hf a s1) as (w & Hw & Fw).
+  exists (n ++ w). rewrite Hw, Hn, app_assoc. split; [reflexivity|].
+  rewrite filter_app, (filter_shows_warnings w Fw), app_nil_r. split; [exact Cn|].
+  apply Forall_app; split; [exact Tn|apply warnings_not_trace, Fw].
+Qed.
+
+Lemma r1_push o : (match o with OTrace _ => False | _ => True end) -> orel R1 (push_output o).
+Proof.
+  intros Ho. unfold push_output. apply orel_modify. intros s. exists [o]. split; [reflexivity|].
+  split; [cbn; destruct (shows o); cbn; lia|constructor; [exact Ho|constructor]].
+Qed.
+
+Lemma r1_ret {A} (a : A) : orel R1 (ret a).
+Proof. apply r1_of_rq, (orel_ret _ RQ_ocat). Qed.
+
+Section StmtQ.
+  Variable fuel nest : nat.
+
+  Ltac st_leaf := first [ apply rq_evaluate_expression | rq_leaf ].
+  Ltac st_walk := orel_walk RQ_ocat st_leaf.
+
+  Lemma rq_optional_index : orel RQ (parse_optional_array_index fuel nest).
+  Proof. unfold parse_optional_array_index; orel_walk RQ_ocat ltac:(first [ apply rq_array_index; apply rq_evaluate_expression | st_leaf ]). Qed.
+  Lemma rq_assign_value lv v : orel RQ (assign_value lv v).
+  Proof. unfold assign_value; st_walk. Qed.
+  Lemma rq_assignment sym : orel RQ (evaluate_assignment_statement fuel nest sym).
+  Proof.
+    unfold evaluate_assignment_statement.
+    orel_walk RQ_ocat ltac:(first [ apply rq_optional_index | apply rq_assign_value | st_leaf ]).
+  Qed.
+  Lemma rq_let : orel RQ (evaluate_let_statement fuel nest).
+  Proof. unfold evaluate_let_statement; orel_walk RQ_ocat ltac:(first [ apply rq_assignment | st_leaf ]). Qed.
+  Lemma rq_parse_lvalue : orel RQ (parse_lvalue fuel nest).
+  Proof. unfold parse_lvalue; orel_walk RQ_ocat ltac:(first [ apply rq_optional_index | st_leaf ]). Qed.
+  Lemma rq_read : orel RQ (evaluate_read_statement fuel nest).
+  Proof.
+    unfold evaluate_read_statement.
+    orel_walk RQ_ocat ltac:(first [ apply rq_parse_lvalue | apply rq_assign_value | st_leaf ]).
+  Qed.
+  Lemma rq_take_input : orel RQ take_input.
+  Proof. unfold take_input; st_walk. Qed.
+  Lemma rq_rewind_await : orel RQ rewind_program_and_await_input.
+  Proof. unfold rewind_program_and_await_input; st_walk. Qed.
+  Lemma rq_dim : orel RQ (evaluate_dim_statement fuel nest).
+  Proof. unfold evaluate_dim_statement; orel_walk RQ_ocat ltac:(first [ apply rq_parse_lvalue | st_leaf ]). Qed.
+  Lemma rq_for : orel RQ (evaluate_for_statement fuel nest).
+  Proof. unfold evaluate_for_statement; st_walk. Qed.
+  Lemma rq_next_stmt : orel RQ evaluate_next_statement.
+  Proof. unfold evaluate_next_statement; st_walk. Qed.
+  Lemma rq_def : orel RQ (evaluate_def_statement fuel).
+  Proof. unfold evaluate_def_statement; st_walk. Qed.
+  Lemma rq_goto_stmt : orel RQ evaluate_goto_statement.
+  Proof. unfold evaluate_goto_statement; st_walk. Qed.
+  Lemma rq_gosub_stmt : orel RQ evaluate_gosub_statement.
+  Proof. unfold evaluate_gosub_statement; st_walk. Qed.
+
+  (* PRINT: the item loop pushes nothing; then exactly one Print record *)
+  Lemma r1_print : orel R1 (evaluate_print_statement fuel nest).
+  Proof.
+    unfold evaluate_print_statement. apply r1_bind_l; [st_walk|intros [semi text]].
+    apply r1_push. exact I.
+  Qed.
+
+  (* INPUT: at most one of ExtraIgnored / Reenter *)
+  Lemma r1_input : orel R1 (evaluate_input_statement fuel nest).
+  Proof.
+    unfold evaluate_input_statement. apply r1_bind_l; [apply rq_take_input|intros ti].
+    destruct ti as [[data leftover]|]; [|apply r1_of_rq, rq_rewind_await].
+    apply r1_bind_l; [apply rq_parse_lvalue|intros lv].
+    destruct data as [|first rest]; [apply r1_of_rq; rq_leaf|].
+    destruct (coerce_data (lv_sym lv) first) as [v|e l|p| |]; try (apply r1_of_rq; rq_leaf).
+    - apply r1_bind_l; [apply rq_assign_value|intros _].
+      match goal with |- context [if ?c then _ else _] => destruct c end;
+        [apply r1_push; exact I|apply r1_ret].
+    - destruct e; try (apply r1_of_rq, rq_same; reflexivity).
+      apply r1_bind_r; [apply r1_push; exact I|intros _; apply rq_rewind_await].
+  Qed.
+
+  (* STOP: one Break record *)
+  Lemma r1_break : orel R1 break_at_current_location.
+  Proof.
+    unfold break_at_current_location. apply r1_bind_l; [rq_leaf|intros _].
+    apply r1_bind_l; [rq_leaf|intros l].
+    apply r1_bind_r; [apply r1_push; exact I|intros _; rq_leaf].
+  Qed.
+End StmtQ.
+
+(* ------------------------------------------------------------------ *)
+(* one statement entered on line L *)
+
+Definition SQ (L : option N) (s : interp) (r : res unit) (s' : interp) : Prop :=
+  loc_line (loc s) = L -> wf s ->
+  exists new, outputs s' = outputs s ++ new /\ length (filter shows new) <= 1 /\ Forall (trace_ok L) new.
+
+Lemma sq_of_r1 {A} L (m : M A) : orel R1 m -> orel (SQ L) m.
+Proof.
+  intros H s _ _. destruct (H s) as (n & Hn & Cn & Tn). exists n. split; [exact Hn|]. split; [exact Cn|].
+  revert Tn. apply Forall_impl. intros o; destruct o; cbn; auto; contradiction.
+Qed.
+
+(* a prefix that keeps wf and (on success) the line, and pushes only warnings *)
+Definition keeps {A} (m : M A) : Prop :=
+  forall s, wf s -> match m s with
+                    | (Ok _, s1) => wf s1 /\ loc_line (loc s1) = loc_line (loc s)
+                    | _ => True
+                    end.
+
+Lemma keeps_of_er {A} (m : M A) : orel ERw m -> keeps m.
+Proof.
+  intros He s Hwf. pose proof (He s Hwf) as E1.
+  destruct (m s) as [[a|e l|p| |] s1]; cbn [fst snd forget] in *; try exact I.
+  destruct E1 as [A1 A2 A3 A4 A5 A6 A7 A8 A9]. destruct (A9 eq_refl) as [B1 B2]. split; assumption.
+Qed.
+
+Lemma keeps_discard : keeps discard_remaining_tokens.
+Proof.
+  intros s Hwf. pose proof (sr_discard s Hwf) as S1.
+  unfold discard_remaining_tokens in *. rewrite Safety.bind_run in *.
+  rewrite (cur_tokens_eq s (wf_loc _ Hwf)) in *. cbn [modify fst snd forget] in *.
+  destruct S1 as [A1 A2 A3 A4 A5]. split; [exact A1|reflexivity].
+Qed.
+
+Lemma sq_bind_l {A B} L (m : M A) (f : A -> M B) :
+  keeps m -> orel RQ m -> (forall a, orel (SQ L) (f a)) -> orel (SQ L) (bind m f).
+Proof.
+  intros He Hq Hf s HL Hwf. rewrite Safety.bind_run.
+  pose proof (He s Hwf) as E1. pose proof (Hq s) as (w & Hw & Fw).
+  destruct (m s) as [[a|e l|p| |] s1]; cbn [fst snd forget] in *;
+    try (exists w; rewrite (filter_shows_warnings w Fw); split; [exact Hw|]; split;
+         [cbn; lia|apply warnings_trace_ok, Fw]).
+  destruct E1 as [A1 B1].
+  destruct (Hf a s1 (eq_trans B1 HL) A1) as (n & Hn & Cn & Tn).
+  exists (w ++ n). rewrite Hn, Hw, app_assoc. split; [reflexivity|].
+  rewrite filter_app, (filter_shows_warnings w Fw). split; [exact Cn|].
+  apply Forall_app; split; [apply warnings_trace_ok, Fw|exact Tn].
+Qed.
+
+Lemma sq_bind_r {A B} L (m : M A) (f : A -> M B) :
+  orel (SQ L) m -> (forall a, orel RQ (f a)) -> orel (SQ L) (bind m f).
+Proof.
+  intros Hm Hf s HL Hwf. rewrite Safety.bind_run. pose proof (Hm s HL Hwf) as H1.
+  destruct (m s) as [[a|e l|p| |] s1]; cbn [fst snd forget] in *; try exact H1.
+  destruct H1 as (n & Hn & Cn & Tn). destruct (Hf a s1) as (w & Hw & Fw).
+  exists (n ++ w). rewrite Hw, Hn, app_assoc. split; [reflexivity|].
+  rewrite filter_app, (filter_shows_warnings w Fw), app_nil_r. split; [exact Cn|].
+  apply Forall_app; split; [exact Tn|apply warnings_trace_ok, Fw].
+Qed.
+
+Lemma sq_ext {A} L (m m' : M A) : (forall s, m s = m' s) -> orel (SQ L) m -> orel (SQ L) m'.
+Proof. intros H Hm s. rewrite <- H. apply Hm. Qed.
+
+Lemma orel_ext {A} R (m m' : M A) : (forall s, m s = m' s) -> orel R m -> orel R m'.
+Proof. intros H Hm s. rewrite <- H. apply Hm. Qed.
+
+Lemma bind_assoc' {A B C} (m : M A) (f : A -> M B) (g : B -> M C) s :
+  bind (bind m f) g s = bind m (fun a => bind (f a) g) s.
+Proof. unfold bind. destruct (m s) as [[a|e l|p| |] s1]; reflexivity. Qed.
+
+Section StmtSQ.
+  Variable fuel nest : nat.
+  Variable L : option N.
+  Variable rec : M unit.
+  Hypothesis Hrec : orel (SQ L) rec.
+
+  Lemma sq_stmt_or_goto : orel (SQ L) (statement_or_goto_line_number rec).
+  Proof.
+    unfold statement_or_goto_line_number.
+    apply sq_bind_l; [apply keeps_of_er, er_peek|rq_leaf|intros t].
+    destruct t as [t|]; [destruct t|]; try exact Hrec. apply sq_of_r1, r1_of_rq, rq_goto_stmt.
+  Qed.
+
+  Lemma sq_if : orel (SQ L) (evaluate_if_statement fuel nest rec).
+  Proof.
+    unfold evaluate_if_statement.
+    apply sq_bind_l; [apply keeps_of_er, er_evaluate_expression|apply rq_evaluate_expression|intros c].
+    apply sq_bind_l; [apply keeps_of_er, er_expect|rq_leaf|intros _].
+    destruct (to_bool c).
+    - apply sq_bind_r; [apply sq_stmt_or_goto|intros _]. rq_walk.
+    - generalize tt. induction fuel as [|k IH]; intros u; cbn [repeat_m].
+      + apply sq_of_r1, r1_of_rq, (orel_out_of_fuel _ RQ_ocat).
+      + eapply sq_ext; [intro; symmetry; apply bind_assoc'|].
+        apply sq_bind_l; [apply keeps_of_er, er_next_token|rq_leaf|intros t].
+        destruct t as [t|]; [|apply sq_of_r1, r1_ret].
+        destruct t; try (eapply sq_ext; [intro; symmetry; apply Safety.bind_ret|]; apply IH).
+        * eapply sq_ext; [intro; symmetry; apply bind_assoc'|].
+          apply sq_bind_l; [apply keeps_discard|rq_leaf|intros _].
+          eapply sq_ext; [intro; symmetry; apply Safety.bind_ret|]. apply IH.
+        * eapply sq_ext; [intro; symmetry; apply bind_assoc'|].
+          apply sq_bind_r; [apply sq_stmt_or_goto|intros _].
+          eapply orel_ext; [intro; symmetry; apply Safety.bind_ret|]. apply (orel_ret _ RQ_ocat).
+  Qed.
+End StmtSQ.
+
+(* the trace prefix of evaluate_statement: one Trace record naming the line *)
+Lemma trace_prefix L s :
+  loc_line (loc s) = L ->
+  exists t, (tr <- get enable_tracing ;;
+             if tr then (l <- get_line_number ;;
+                         match l with Some n => push_output (OTrace n) | None => ret tt end)
+             else ret tt) s = (Ok tt, set_outputs (outputs s ++ t) s)
+            /\ Forall (trace_ok L) t /\ filter shows t = [].
+Proof.
+  intros HL. rewrite bind_get. destruct (enable_tracing s).
+  - unfold get_line_number. rewrite bind_assoc', bind_get, Safety.bind_ret. rewrite HL.
+    destruct L as [n|].
+    + exists [OTrace n]. split; [reflexivity|]. split; [repeat constructor|reflexivity].
+    + exists []. rewrite app_nil_r. split; [destruct s; reflexivity|]. split; [constructor|reflexivity].
+  - exists []. rewrite app_nil_r. split; [destruct s; reflexivity|]. split; [constructor|reflexivity].
+Qed.
+
+Section Body.
+  Variable fuel nest : nat.
+  Variable L : option N.
+  Variable rec : M unit.
+  Hypothesis Hrec : orel (SQ L) rec.
+
+  Ltac arm :=
+    first [ apply sq_of_r1, r1_break | apply sq_of_r1, r1_print | apply sq_of_r1, r1_input
+          | apply (sq_if fuel nest L rec Hrec)
+          | apply sq_of_r1, r1_of_rq;
+            first [ apply rq_dim | apply rq_goto_stmt | apply rq_gosub_stmt
+                  | apply rq_for | apply rq_next_stmt | apply rq_def | apply rq_read | apply rq_let
+                  | apply rq_assignment
+                  | orel_walk RQ_ocat ltac:(first [ apply rq_evaluate_expression | rq_leaf ]) ] ].
+
+  Lemma sq_dispatch : orel (SQ L)
+    (t <- next_token ;;
+     match t with
+     | Some TStop => break_at_current_location
+     | Some TDim => evaluate_dim_statement fuel nest
+     | Some TPrint | Some TQuestionMark => evaluate_print_statement fuel nest
+     | Some TInput => evaluate_input_statement fuel nest
+     | Some TIf => evaluate_if_statement fuel nest rec
+     | Some TGoto => evaluate_goto_statement
+     | Some TGosub => evaluate_gosub_statement
+     | Some TReturn => return_to_last_gosub
+     | Some TEnd => program_end
+     | Some TFor => evaluate_for_statement fuel nest
+     | Some TNext => evaluate_next_statement
+     | Some TRestore => reset_data_cursor
+     | Some TDef => evaluate_def_statement fuel
+     | Some TRead => evaluate_read_statement fuel nest
+     | Some (TRemark _) => ret tt
+     | Some TColon => ret tt
+     | Some (TData _) => ret tt
+     | Some TLet => evaluate_let_statement fuel nest
+     | Some (TSymbol sym) => evaluate_assignment_statement fuel nest sym
+     | Some TElse =>
+         b <- is_else_of_then_clause ;;
+         if b then discard_remaining_tokens else fail EUnexpectedToken
+     | Some _ => fail EUnexpectedToken
+     | None => ret tt
+     end).
+  Proof.
+    apply sq_bind_l; [apply keeps_of_er, er_next_token|rq_leaf|intros t].
+    destruct t as [t|]; [destruct t|]; arm.
+  Qed.
+
+  Lemma sq_statement_body : orel (SQ L) (evaluate_statement_body fuel nest rec).
+  Proof.
+    intros s HL Hwf. unfold evaluate_statement_body.
+    destruct (trace_prefix L s HL) as (t & Ht & Tt & St).
+    rewrite <- bind_assoc'. rewrite Safety.bind_run, Ht.
+    set (s1 := set_outputs (outputs s ++ t) s).
+    assert (Hwf1 : wf s1) by (revert Hwf; apply wf_ext; reflexivity).
+    destruct (sq_dispatch s1 HL Hwf1) as (n & Hn & Cn & Tn).
+    exists (t ++ n). rewrite Hn. subst s1. cbn [outputs set_outputs]. rewrite app_assoc.
+    split; [reflexivity|]. rewrite filter_app, St. split; [exact Cn|].
+    apply Forall_app; split; assumption.
+  Qed.
+End Body.
+
+Lemma sq_evaluate_statement fuel L : forall n, orel (SQ L) (evaluate_statement fuel n).
+Proof.
+  induction fuel as [|k IH]; intros n; cbn [evaluate_statement].
+  - apply sq_of_r1, r1_of_rq, (orel_out_of_fuel _ RQ_ocat).
+  - destruct (Nat.eqb n max_nesting); [apply sq_of_r1, r1_of_rq, (orel_fail _ RQ_ocat)|].
+    apply sq_statement_body; apply IH.
+Qed.
+
+(* ------------------------------------------------------------------ *)
+(* one turn *)
+
+Theorem one_statement_per_turn fuel s :
+  wf s ->
+  exists new, outputs (snd (run_next_statement fuel s)) = outputs s ++ new
+              /\ length (filter shows new) <= 1
+              /\ Forall (trace_ok (loc_line (loc s))) new.
+Proof.
+  intros Hwf. set (L := loc_line (loc s)).
+  assert (H : orel (SQ L) (run_next_statement fuel)).
+  { unfold run_next_statement, return_to_idle_state.
+    apply sq_bind_l; [apply keeps_of_er; frame_tac|rq_leaf|intros _].
+    apply sq_bind_l; [apply keeps_of_er, er_has_next|rq_leaf|intros h].
+    apply sq_bind_r; [destruct h; [apply sq_evaluate_statement|apply sq_of_r1, r1_ret]|intros _].
+    rq_walk. }
+  exact (H s eq_refl Hwf).
+Qed.
+
+(* the host call that continues a running program *)
+Corollary continue_one_statement fuel s :
+  wf s -> state s = Running ->
+  exists new, outputs (snd (continue_evaluating fuel s)) = outputs s ++ new
+              /\ length (filter shows new) <= 1
+              /\ Forall (trace_ok (loc_line (loc s))) new.
+Proof.
+  intros Hwf Hst. unfold continue_evaluating. rewrite Hst.
+  destruct (one_statement_per_turn fuel s Hwf) as (n & Hn & Cn & Tn).
+  exists n. split; [|split; assumption].
+  destruct (run_next_statement fuel s) as [[u|e l|p| |] s1]; cbn [postprocess snd] in *; exact Hn.
+Qed.
+
+(* the calls that START evaluation: an immediate statement line, RUN, CONT *)
+Lemma outputs_imm_reset ts s : outputs (imm_reset ts s) = outputs s.
+Proof. unfold imm_reset. destruct (breakpoint s); reflexivity. Qed.
+
+Definition starts_statement (line : bytes) : Prop :=
+  command_of line = None \/ command_of line = Some CRun \/ command_of line = Some CCont.
+
+Theorem start_one_statement fuel line s :
+  wf s -> starts_statement line ->
+  exists new, outputs (snd (start_evaluating fuel line s)) = outputs s ++ new
+              /\ length (filter shows new) <= 1.
+Proof.
+  intros Hwf Hc.
+  assert (K0 : forall s', outputs s' = outputs s ->
+             exists new, outputs s' = outputs s ++ new /\ length (filter shows new) <= 1).
+  { intros s' H. exists []. rewrite app_nil_r. split; [exact H|cbn; lia]. }
+  assert (KP : forall (x : res unit * interp), outputs (snd (postprocess x)) = outputs (snd x)).
+  { intros [[u|e l|p| |] s1]; reflexivity. }
+  unfold start_evaluating. rewrite KP. unfold evaluate_impl. rewrite bind_get.
+  destruct (state s); try (apply K0; reflexivity).
+  rewrite set_imm_is_modify, bind_modify.
+  pose proof (wf_imm_reset [] s Hwf) as Hwf1. pose proof (outputs_imm_reset [] s) as Ho1.
+  set (s1 := imm_reset [] s) in *.
+  assert (KR : forall s2, wf s2 -> outputs s2 = outputs s ->
+             exists new, outputs (snd (run_next_statement fuel s2)) = outputs s ++ new
+                         /\ length (filter shows new) <= 1).
+  { intros s2 Hwf2 Ho2. destruct (one_statement_per_turn fuel s2 Hwf2) as (n & Hn & Cn & _).
+    exists n. rewrite Hn, Ho2. split; [reflexivity|exact Cn]. }
+  destruct Hc as [Hc|[Hc|Hc]]; rewrite Hc.
+  - destruct (match parse_line_number line with Some (n, e) => (Some n, e) | None => (None, 0) end) as [num skip].
+    destruct (tokenize line skip) as [ts|ts e]; [|apply K0; exact Ho1].
+    destruct num as [n|].
+    + apply K0. rewrite <- Ho1.
+      unfold set_numbered_line, reset_data_cursor, program_end. rewrite set_imm_is_modify.
+      unfold modify, bind. cbn [snd]. rewrite outputs_imm_reset. cbn. unfold store_set.
+      destruct (map fst ts); reflexivity.
+    + rewrite set_imm_is_modify, bind_modify. apply KR.
+      * apply wf_imm_reset, Hwf1.
+      * rewrite outputs_imm_reset. exact Ho1.
+  - cbn [process_command]. rewrite !bind_modify. rewrite Safety.bind_run.
+    set (s2 := set_arrays [] _).
+    assert (Hwf2 : wf s2).
+    { subst s2. apply wf_set_arrays; [|constructor]. revert Hwf1. apply wf_ext; reflexivity. }
+    pose proof (sr_run_from_first s2 Hwf2) as S3.
+    assert (Ho3 : outputs (snd (run_from_first_numbered_line s2)) = outputs s).
+    { unfold run_from_first_numbered_line, reset_runtime_state, reset_data_cursor, program_end.
+      rewrite set_imm_is_modify. unfold modify, bind. cbn [snd fst].
+      match goal with |- context [store_first ?x] => destruct (store_first x) end;
+        cbn [outputs set_loc]; rewrite outputs_imm_reset; exact Ho1. }
+    destruct (run_from_first_numbered_line s2) as [[u|e l|p| |] s3]; cbn [fst snd forget] in *;
+      try (apply K0; exact Ho3).
+    apply KR; [exact (sr_wf _ _ _ S3)|exact Ho3].
+  - cbn [process_command]. rewrite Safety.bind_run.
+    pose proof (sr_continue_bp s1 Hwf1) as S3.
+    assert (Ho3 : outputs (snd (continue_from_breakpoint s1)) = outputs s).
+    { unfold continue_from_breakpoint. rewrite set_imm_is_modify, bind_modify, bind_get.
+      destruct (breakpoint (imm_reset [] s1)); cbn [modify fail snd outputs set_breakpoint set_loc];
+        rewrite outputs_imm_reset; exact Ho1. }
+    destruct (continue_from_breakpoint s1) as [[u|e l|p| |] s3]; cbn [fst snd forget] in *;
+      try (apply K0; exact Ho3).
+    apply KR; [exact (sr_wf _ _ _ S3)|exact Ho3].
+Qed.
